@@ -138,6 +138,60 @@ def _trace(module, trace, what, timeout, totals):
     return len(lines), res, wall
 
 
+def _real_kernel(rep, wd, cfgname, timeout, totals, stage=None):
+    """B3: the PATH search part of CmdSearch.tla replayed with RealSystem in a scratch directory.
+    Violations go to `rep` (with "stage" in key and replay object when run as a stage of another check)."""
+    gen = os.path.join(wd, "cs-real.ndjson")
+    r = vlib.tlc("Gen_CmdSearch", cfgname, workers=8, timeout=timeout, env={"SEED": str(vlib.seed())}, json_out=gen)
+    vlib.tlc_must_pass(r, f"enumeration {cfgname}")
+    totals["states"] += r.distinct
+    totals["transitions"] += r.generated
+    nlines = vlib.count_lines(gen)
+    mism = os.path.join(wd, "cs-real-mismatch.ndjson")
+    _, out, _ = vlib.run_harness(PKG, ["cs-replay", "--real", "--in", gen, "--out", mism, "--threads", "8"])
+    s_r = _summary(out)
+    if s_r["states"] != nlines - 1:
+        raise vlib.ToolError(f"real-OS replay covered {s_r['states']} of {nlines - 1} states")
+    for rec in vlib.read_ndjson(mism):
+        key = _cs_key("spec->real", rec, _short(rec["query"], rec["exp"]), _short(rec["query"], rec["obs"]))
+        key["first_exec_or_dir"] = key["relative_exec"] = "real"      # the findings about the simulator do not apply
+        robj = {"kind": "cs", "real": True, "S": rec["S"], "name": rec["name"], "query": rec["query"]}
+        if stage:
+            key["stage"] = stage
+            robj["stage"] = stage
+        detail = (f"real OS: `{rec['query']}` of {rec['name']} in [{key['state']}]: specified {rec['exp']}, observed {rec['obs']}")
+        rep.violation(key, detail, robj)
+    vlib.log(f"[p4->] command search on the real kernel: {s_r['queries']} queries in {s_r['states']} states replayed "
+             f"({r.wall:.1f}s TLC): {s_r['mismatches']} mismatches")
+    os.remove(gen)
+    s_r["tlc_s"] = round(r.wall, 1)
+    return s_r
+
+
+def run_stage(tier, rep, budget="c02"):
+    """The real-kernel command-search slice (B3) run as a stage of another check (C02: a name is
+    resolved in the POSIX search order and the PATH search takes the first *executable regular file*,
+    also on a kernel that is not the simulator of /repo): calibration of CmdSearch.tla, TLC enumeration
+    of family X (names nno / true x function x permutations of <= 3 of 4 PATH directories x file kind
+    per directory: none / executable / not executable / directory; names with a slash), every state
+    established in a scratch directory and queried through `command -v`, `-V`, `type`, running the
+    name and `command name` with RealSystem.  Violations go to `rep` (keys and replay objects carry
+    "stage": "g04"); returns coverage numbers."""
+    t0 = time.time()
+    cfg = TIERS[tier]
+    wd = vlib.workdir(PID + "-stage-" + budget)
+    vlib.build_harness(PKG)
+    r = vlib.tlc("Calib_CmdSearch", "Calib_CmdSearch.cfg", workers=1, timeout=300)
+    vlib.tlc_must_pass(r, "calibration examples (Calib_CmdSearch)")
+    totals = {"states": 0, "transitions": 0}
+    s_r = _real_kernel(rep, wd, cfg["real"], cfg["timeout"], totals, stage="g04")
+    vlib.log(f"[g04-stage] real-kernel command search: {s_r['states']} states, {s_r['queries']} queries, "
+             f"{s_r['mismatches']} mismatches, {time.time() - t0:.1f}s")
+    return {"config": cfg["real"], "states": totals["states"], "transitions": totals["transitions"],
+            "shell_states_replayed": s_r["states"], "queries": s_r["queries"], "mismatches": s_r["mismatches"],
+            "outcomes": s_r["tags"], "wall_s": round(time.time() - t0, 1)}
+
+
 def run(tier):
     t0 = time.time()
     cfg = TIERS[tier]
@@ -236,25 +290,7 @@ def run(tier):
     os.remove(gen)
 
     # B3. the PATH search on the real kernel
-    gen = os.path.join(wd, "cs-real.ndjson")
-    r = vlib.tlc("Gen_CmdSearch", cfg["real"], workers=8, timeout=cfg["timeout"], env={"SEED": str(vlib.seed())}, json_out=gen)
-    vlib.tlc_must_pass(r, f"enumeration {cfg['real']}")
-    totals["states"] += r.distinct
-    totals["transitions"] += r.generated
-    nlines = vlib.count_lines(gen)
-    mism = os.path.join(wd, "cs-real-mismatch.ndjson")
-    _, out, _ = vlib.run_harness(PKG, ["cs-replay", "--real", "--in", gen, "--out", mism, "--threads", "8"])
-    s_r = _summary(out)
-    if s_r["states"] != nlines - 1:
-        raise vlib.ToolError(f"real-OS replay covered {s_r['states']} of {nlines - 1} states")
-    for rec in vlib.read_ndjson(mism):
-        key = _cs_key("spec->real", rec, _short(rec["query"], rec["exp"]), _short(rec["query"], rec["obs"]))
-        key["first_exec_or_dir"] = key["relative_exec"] = "real"      # the findings about the simulator do not apply
-        detail = (f"real OS: `{rec['query']}` of {rec['name']} in [{key['state']}]: specified {rec['exp']}, observed {rec['obs']}")
-        rep.violation(key, detail, {"kind": "cs", "real": True, "S": rec["S"], "name": rec["name"], "query": rec["query"]})
-    vlib.log(f"[p4->] command search on the real kernel: {s_r['queries']} queries in {s_r['states']} states replayed "
-             f"({r.wall:.1f}s TLC): {s_r['mismatches']} mismatches")
-    os.remove(gen)
+    s_r = _real_kernel(rep, wd, cfg["real"], cfg["timeout"], totals)
 
     # B2. command search, impl -> spec
     trace = os.path.join(wd, "cs-random.ndjson")
@@ -344,7 +380,8 @@ def replay(path):
     rejected = [j for j in r.json if j["v"] == "reject"]
     if rejected:
         print("specified:", json.dumps(rejected[0]["exp"]))
-        print(f"VIOLATION property={PID} replay={path}")
+        # a record of the stage run inside another check is reported for that property
+        print(f"VIOLATION property={obj.get('property', PID) if rec.get('stage') else PID} replay={path}")
         return 1
     print("accepted" if not r.json else "outside the specified fragment")
     return 0
